@@ -70,9 +70,12 @@ def benign(err):
 def segments(trace):
     """split a trace into run() calls: [(N, nfe_before, [step records], nfe_after)];
     step record = dict(nfe=, batches=[(members, calls, nfe_before, nfe_after)], exposed=, sizes=)"""
-    segs, cur, steps, batches, b, calls = [], None, [], [], None, 0
+    segs, cur, steps, batches, b, calls, evolves = [], None, [], [], None, 0, []
     for ev in trace.events:
         k = ev[0]
+        if k == "evolve":
+            evolves.append(ev[1])
+            continue
         if k == "run":
             cur, steps, batches = (ev[1], ev[2]), [], []
         elif k == "batch":
@@ -83,8 +86,9 @@ def segments(trace):
             batches.append({"members": b[1], "calls": calls, "nfe_before": b[2], "nfe_after": ev[2], "after": ev[1]})
             b = None
         elif k == "step":
-            steps.append({"nfe": ev[1], "batches": batches, "exposed": ev[2], "sizes": ev[3]})
-            batches = []
+            steps.append({"nfe": ev[1], "batches": batches, "exposed": ev[2], "sizes": ev[3], "evolves": evolves,
+                          "population_size": ev[4] if len(ev) > 4 else None})
+            batches, evolves = [], []
         elif k == "run_end":
             segs.append({"N": cur[0], "nfe_before": cur[1], "steps": steps, "nfe_after": ev[1], "dangling_batches": batches})
             cur = None
